@@ -63,6 +63,25 @@ func vCanaries() string {
 	res["mode"] = strings.Contains(c0, "value-one") && strings.Contains(c1, "value-two") && !strings.Contains(c1, "value-one") &&
 		c2 == c1 && len(t2.errs) == 1 && c3 == c1 && len(t3.errs) == 1
 
+	// defaults: the package-level functions follow the package defaults this harness installs (vResetProcess)
+	d = filepath.Join(root, "defaults")
+	vResetProcess(d)
+	vSetEnv(false, "unset", false)
+	td := &vT{name: "TestCanaryDefault"}
+	MatchSnapshot(td, "through the package-level function")
+	MatchStandaloneSnapshot(td, "standalone through the package-level function")
+	for _, f := range td.cleanups {
+		f()
+	}
+	ents, _ := os.ReadDir(d)
+	nsnap := 0
+	for _, e := range ents {
+		if strings.Contains(e.Name(), ".snap") {
+			nsnap++
+		}
+	}
+	res["defaults"] = len(td.errs) == 0 && nsnap == 2
+
 	// clean + stdout + flags: the deletion switch, the captured summary, the -count flag
 	d = filepath.Join(root, "clean")
 	os.MkdirAll(d, 0o755)
@@ -106,7 +125,7 @@ func vCanaries() string {
 	vResetProcess(root)
 	vSetEnv(false, "unset", false)
 	parts := []string{}
-	for _, k := range []string{"mode", "clean", "stdout", "flags", "fresh"} {
+	for _, k := range []string{"mode", "defaults", "clean", "stdout", "flags", "fresh"} {
 		parts = append(parts, k+"="+vb(res[k]))
 	}
 	return "canary " + strings.Join(parts, " ")
